@@ -12,9 +12,12 @@ ID="$2-${VERIF_TIER:-x}-$$"
   $V/bin/mcgen -src /repo -out $B/gen/mpb >$B/gen.log 2>&1 || { cat $B/gen.log; echo "mc.sh: cannot instrument /repo (not a verdict)"; exit 2; }
   $V/bin/mcgen -nofuel -src $V/scen -out $B/gen/scen -replace "github.com/vbauerster/mpb/v8=>$B/gen/mpb" >>$B/gen.log 2>&1 || { cat $B/gen.log; echo "mc.sh: cannot instrument scenarios against /repo (not a verdict)"; exit 2; }
   (cd $V/mc && go build -o $B/mc-$ID . ) || { echo "mc.sh: build failed (not a verdict)"; exit 2; }
+  if [ "$2" = "C10" ]; then
+    (cd $V/mc && go build -race -gcflags='mcrt/...=-race=false' -gcflags='scen=-race=false' -o $B/mcrace-$ID . ) || { echo "mc.sh: race variant build failed (not a verdict)"; exit 2; }
+  fi
   (cd $V/pristine && go build -o $B/pristine-$ID . ) || { echo "mc.sh: pristine build failed (not a verdict)"; exit 2; }
 ) 9>$B/.lock || exit 2
-MC_PRISTINE=$B/pristine-$ID $B/mc-$ID "$@"
+MC_RACE_BIN=$B/mcrace-$ID MC_PRISTINE=$B/pristine-$ID $B/mc-$ID "$@"
 rc=$?
-rm -f $B/mc-$ID $B/pristine-$ID
+rm -f $B/mc-$ID $B/pristine-$ID $B/mcrace-$ID
 exit $rc
